@@ -237,6 +237,7 @@ def mujoco_worker(name: str, n: int, seed: int) -> dict:
     contact_key = {"Ant": "reward_contact", "Humanoid": "reward_contact", "HumanoidStandup": "reward_impact"}.get(name)
     D = {"reset_obs": [], "own_reset_obs": [], "obs": [], "obs_contact": [], "rew": [], "comps": {}}
     term_mis, term_seen, cf_seen, cf_missing, cf_formula = 0, 0, 0, 0, 0.0
+    FREE = {"main": [], "param": []}
 
     import mujoco
 
@@ -295,8 +296,10 @@ def mujoco_worker(name: str, n: int, seed: int) -> dict:
 
     for i in range(n):
         g.reset(seed=seed + 100 + i)
-        for _ in range(int(rng.integers(0, 40))):
-            _, _, t, _, _ = g.step(g.action_space.sample())
+        for _ in range(int(rng.integers(0, 3)) if (name in CONTACT_RICH and i % 2 == 0) else int(rng.integers(0, 40))):
+            # (the space's own sample() draws from an unseeded generator: the visited states, and with them how many samples
+            # touch the ground, would differ from run to run)
+            _, _, t, _, _ = g.step(rng.uniform(g.action_space.low, g.action_space.high).astype(np.float32))
             if t:
                 break
         qpos, qvel = canonical(g.data.qpos), g.data.qvel.copy()
@@ -304,7 +307,9 @@ def mujoco_worker(name: str, n: int, seed: int) -> dict:
         g.set_state(qpos, qvel)
         st = place(env, jnp.asarray(qpos, jnp.float32), jnp.asarray(qvel, jnp.float32))
         a = rng.uniform(g.action_space.low, g.action_space.high).astype(np.float32)
+        nc0 = int(g.data.ncon)
         o_g, r_g, t_g, _, info_g = g.step(a)
+        FREE["main"].append(nc0 == 0 and int(g.data.ncon) == 0)       # no contact before or after the step in MuJoCo C
         nx, o_l, r_l, t_l, info_l = lstep(env, st, jnp.asarray(a))
         o_l = np.asarray(o_l, dtype=np.float64)
         if o_l.shape != np.asarray(o_g).shape:
@@ -412,7 +417,9 @@ def mujoco_worker(name: str, n: int, seed: int) -> dict:
                 g3.set_state(qpos, qvel)
                 st = place(env3, jnp.asarray(qpos, jnp.float32), jnp.asarray(qvel, jnp.float32))
                 a = rng.uniform(g3.action_space.low, g3.action_space.high).astype(np.float32)
+                nc0 = int(g3.data.ncon)
                 _, r_g, t_g, _, info_g = g3.step(a)
+                FREE["param"].append(nc0 == 0 and int(g3.data.ncon) == 0)
                 nx3, _, r_l, _, info_l = lstep(env3, st, jnp.asarray(a))
                 cg = float(info_g.get(contact_key, 0.0)) if contact_key else 0.0
                 cl = float(info_l.get(contact_key, 0.0)) if contact_key else 0.0
@@ -439,12 +446,16 @@ def mujoco_worker(name: str, n: int, seed: int) -> dict:
     except TypeError:
         kw = {}                                        # a parameter Gymnasium does not accept in this form: nothing to compare with
 
-    def judge(vals, physics: bool) -> bool:
+    def judge(vals, physics: bool, which: str = "main") -> bool:
         if not vals:
             return True
         v = np.asarray(vals, dtype=np.float64)
         if physics and name in CONTACT_RICH:
-            return bool(np.quantile(v, 0.25) <= TIGHT)      # a wrong formula shifts every sample; contact-solver noise only some
+            # one C step against one MJX step through a contact solve differs by 1e-2 on the samples that touch the ground (and
+            # a sample without contact at the step's ends may still touch in between): judged on the lower quartile - a wrong formula
+            # shifts every sample.  Every second sample of a contact-rich environment comes from the first two steps after a reset,
+            # when the body is still falling, so the lower quartile is contact-free whatever the seed.
+            return bool(np.quantile(v, 0.25) <= TIGHT)
         if physics:
             # one MuJoCo C step against one MJX step: a contact that opens or closes in one simulator only gives a rare outlier
             return bool(np.median(v) <= TIGHT and np.quantile(v, 0.9) <= LOOSE)
@@ -463,8 +474,8 @@ def mujoco_worker(name: str, n: int, seed: int) -> dict:
         "TerminationIsGymnasiums": term_mis == 0,
     }
     if kw:
-        atoms["RewardUnderNonDefaultParametersIsGymnasiums"] = bool(judge(D["param_rew"], True) and all(
-            judge(v, key not in physics_free) for key, v in D["param_comps"].items()))
+        atoms["RewardUnderNonDefaultParametersIsGymnasiums"] = bool(judge(D["param_rew"], True, "param") and all(
+            judge(v, key not in physics_free, "param") for key, v in D["param_comps"].items()))
         atoms["TerminationUnderNonDefaultParametersIsGymnasiums"] = pterm_mis == 0
     if name in HAS_CFRC:
         # a contact that exists in MuJoCo C only (marginal penetration) is possible for a single sample; forces that are never
@@ -472,7 +483,8 @@ def mujoco_worker(name: str, n: int, seed: int) -> dict:
         atoms["ContactForcesArePresentWhenGymnasiumReportsThem"] = bool(cf_seen == 0 or cf_missing <= cf_seen // 2)
         atoms["ContactCostFollowsGymnasiumsFormula"] = cf_formula <= 1e-3
         atoms["ContactCostUnderNonDefaultWeightAndRangeFollowsGymnasiumsFormula"] = pcf_formula <= 1e-3
-    stats = {"samples": n, "terminated_in_gym": term_seen, "termination_mismatches": term_mis, "contact_samples": cf_seen,
+    stats = {"samples": n, "contact_free_samples": int(sum(FREE["main"])), "contact_free_samples_non_default_parameters": int(sum(FREE["param"])),
+             "terminated_in_gym": term_seen, "termination_mismatches": term_mis, "contact_samples": cf_seen,
              "contact_missing": cf_missing, "contact_formula_dev": cf_formula, "contact_formula_dev_under_non_default_parameters": pcf_formula, "parameters_gymnasium_never_reads": dead_params, "non_default_parameters": {k: (list(v) if isinstance(v, tuple) else v) for k, v in kw.items()},
              "terminated_under_non_default_parameters": pterm_seen, "termination_mismatches_under_non_default_parameters": pterm_mis,
              "q25": {k: float(np.quantile(v, 0.25)) for k, v in D.items() if isinstance(v, list) and v},
